@@ -113,18 +113,18 @@ def compute_rise_offsets(cursor, reference_zeta_mm):
         series, delta_z_mm
     )
 
+    if reference_zeta_mm is not None:
+        reference_index = int(round(reference_zeta_mm / delta_z_mm))
     reference_zeta_off_grid = (
         reference_zeta_mm is not None
-        and not np.allclose(reference_zeta_mm % delta_z_mm, 0)
+        and abs(reference_zeta_mm / delta_z_mm - reference_index) > 1e-6
     )
     if reference_zeta_off_grid:
         raise ValueError(
             'Reference zeta {} mm not evenly divisible by '
             'zeta step {} mm'.format(reference_zeta_mm, delta_z_mm)
         )
-    if reference_zeta_mm is not None:
-        reference_index = int(reference_zeta_mm / delta_z_mm)
-    else:
+    if reference_zeta_mm is None:
         reference_index = max(zeta_mapping.keys())
 
     mean_zero_crossing_depth_mm = np.array(
